@@ -221,22 +221,39 @@ Proof.
   - destruct (is_create (f_kind f)); cbn [total_gas c_status c_frames frames_gas resume_create resume_call f_gas]; lia.
 Qed.
 
-Lemma start_call_back : forall k d w ps pc pv pst t args g v ro rs, 0 <= g ->
-    match start_call k d w ps pc pv pst t args g v ro rs with
-    | SImmediate _ gb _ => 0 <= gb <= g
+Lemma run_precompile_back : forall t wok ws args g, 0 <= g ->
+    match run_precompile t wok ws args g with
+    | SImmediate _ gb _ _ => 0 <= gb <= g
     | SFrame child _ => f_gas child = g /\ f_mem child = [] /\ f_mcost child = 0
     | SUnsupported => True
     end.
-Proof.
+Proof using.
+  clear keccak blockhash.
+  intros t wok ws args g Hg. unfold run_precompile. destruct (t =? 4); [|exact I].
+  assert (0 <= words (Z.of_nat (length args)) * g_identity_word + g_identity_base).
+  { unfold words, g_identity_word, g_identity_base. lia. }
+  match goal with |- context [if ?b then _ else _] => destruct b eqn:E end; [lia|].
+  apply Z.ltb_ge in E. lia.
+Qed.
+
+Lemma start_call_back : forall k d w ps pc pv pst t args g v ro rs, 0 <= g ->
+    match start_call k d w ps pc pv pst t args g v ro rs with
+    | SImmediate _ gb _ _ => 0 <= gb <= g
+    | SFrame child _ => f_gas child = g /\ f_mem child = [] /\ f_mcost child = 0
+    | SUnsupported => True
+    end.
+Proof using.
+  clear keccak blockhash.
   intros until rs. intros Hg. unfold start_call.
   destruct (call_create_depth <? d); [lia|].
   destruct k; repeat match goal with
     | |- context [if ?b then _ else _] => destruct b
-    end; cbn [new_frame f_gas f_mem f_mcost]; auto; lia.
+    end; cbn [new_frame f_gas f_mem f_mcost]; auto; try lia; apply run_precompile_back; exact Hg.
 Qed.
+
 Lemma start_create_back : forall d w ps pst a init g v, 0 <= g ->
     match start_create d w ps pst a init g v with
-    | SImmediate _ gb _ => 0 <= gb <= g
+    | SImmediate _ gb _ _ => 0 <= gb <= g
     | SFrame child _ => f_gas child = g /\ f_mem child = [] /\ f_mcost child = 0
     | SUnsupported => True
     end.
@@ -272,12 +289,12 @@ Proof.
     assert (Hgive : 0 <= f_gas f - f_gas f / 64 <= f_gas f) by lia.
     match goal with |- context [start_create ?d ?ww ?a ?b ?addr ?c ?g ?v] =>
       pose proof (start_create_back d ww a b addr c g v ltac:(lia)) as Hs;
-      destruct (start_create d ww a b addr c g v) as [o gb w'|child w'|] end;
+      destruct (start_create d ww a b addr c g v) as [o gb w' iret|child w'|] end;
       cbn [total_gas c_status c_frames frames_gas resume_create set_gas set_stack f_gas length]; split; lia.
   - (* CREATE2 *)
     match goal with |- context [start_create ?d ?ww ?a ?b ?addr ?c ?g ?v] =>
       pose proof (start_create_back d ww a b addr c g v ltac:(lia)) as Hs;
-      destruct (start_create d ww a b addr c g v) as [o gb w'|child w'|] end;
+      destruct (start_create d ww a b addr c g v) as [o gb w' iret|child w'|] end;
       cbn [total_gas c_status c_frames frames_gas resume_create set_gas set_stack f_gas length]; split; lia.
   - (* CALL family *)
     specialize (Hcg k eq_refl).
@@ -290,7 +307,7 @@ Proof.
     { unfold gas. destruct (callvalue k (f_stack f) =? 0); cbn [negb]; lia. }
     match goal with |- context [start_call ?k ?d ?ww ?a ?b ?c ?dd ?ee ?ff gas ?hh ?ii ?jj] =>
       pose proof (start_call_back k d ww a b c dd ee ff gas hh ii jj ltac:(lia)) as Hs;
-      destruct (start_call k d ww a b c dd ee ff gas hh ii jj) as [o gb w'|child w'|] end;
+      destruct (start_call k d ww a b c dd ee ff gas hh ii jj) as [o gb w' iret|child w'|] end;
       cbn [total_gas c_status c_frames frames_gas resume_call set_stack f_gas length]; split; lia.
 Qed.
 
@@ -331,14 +348,14 @@ Proof.
     assert (Hgive : 0 <= f_gas f - f_gas f / 64 <= f_gas f) by lia.
     match goal with |- context [start_create ?d ?ww ?a ?b ?addr ?c ?g ?v] =>
       pose proof (start_create_back d ww a b addr c g v ltac:(lia)) as Hs;
-      destruct (start_create d ww a b addr c g v) as [o gb w'|child w'|] end;
+      destruct (start_create d ww a b addr c g v) as [o gb w' iret|child w'|] end;
       cbn [c_frames]; repeat constructor; auto;
         try (apply (mem_ok_any_grow f); auto; cbn; lia).
     destruct Hs as [_ [H1 H2]]. apply fresh_memok; assumption.
   - (* CREATE2 *)
     match goal with |- context [start_create ?d ?ww ?a ?b ?addr ?c ?g ?v] =>
       pose proof (start_create_back d ww a b addr c g v ltac:(lia)) as Hs;
-      destruct (start_create d ww a b addr c g v) as [o gb w'|child w'|] end;
+      destruct (start_create d ww a b addr c g v) as [o gb w' iret|child w'|] end;
       cbn [c_frames]; repeat constructor; auto;
         try (apply (mem_ok_any_grow f); auto; cbn; lia).
     destruct Hs as [_ [H1 H2]]. apply fresh_memok; assumption.
@@ -347,7 +364,7 @@ Proof.
     match goal with |- context [start_call ?k ?d ?ww ?a ?b ?c ?dd ?ee ?ff ?gas ?hh ?ii ?jj] =>
       assert (Hgas : 0 <= gas) by (match goal with |- context [if ?b then _ else _] => destruct b end; lia);
       pose proof (start_call_back k d ww a b c dd ee ff gas hh ii jj Hgas) as Hs;
-      destruct (start_call k d ww a b c dd ee ff gas hh ii jj) as [o gb w'|child w'|] end;
+      destruct (start_call k d ww a b c dd ee ff gas hh ii jj) as [o gb w' iret|child w'|] end;
       cbn [c_frames]; repeat constructor; auto.
     all: try (destruct Hs as [_ [H1 H2]]; apply fresh_memok; assumption).
     all: apply (mem_ok_any_grow f); auto; cbn [resume_call set_stack f_mem]; try lia;
@@ -518,16 +535,16 @@ Qed.
 
 Lemma init_call_INV : forall e w t input g v, 0 <= g -> INV (init_call e w t input g v) /\ WF (init_call e w t input g v) /\ phi (init_call e w t input g v) <= g + 1.
 Proof.
-  intros e w t input g v Hg. split; [split; [apply init_call_gas; exact Hg|]|].
+  intros e w t input g v Hg. split; [split; [apply (init_call_gas keccak blockhash); exact Hg|]|].
   - unfold init_call.
     pose proof (start_call_back KCall 0 w (e_origin e) (e_origin e) 0 false t input g v 0 0 Hg) as Hs.
-    destruct (start_call KCall 0 w (e_origin e) (e_origin e) 0 false t input g v 0 0) as [o gb w'|child w'|].
+    destruct (start_call KCall 0 w (e_origin e) (e_origin e) 0 false t input g v 0 0) as [o gb w' iret|child w'|].
     + destruct o; constructor.
     + cbn [c_frames]. constructor; [|constructor]. destruct Hs as [_ [H1 H2]]. apply fresh_memok; assumption.
     + constructor.
   - unfold init_call, WF, phi, total_gas.
     pose proof (start_call_back KCall 0 w (e_origin e) (e_origin e) 0 false t input g v 0 0 Hg) as Hs.
-    destruct (start_call KCall 0 w (e_origin e) (e_origin e) 0 false t input g v 0 0) as [o gb w'|child w'|].
+    destruct (start_call KCall 0 w (e_origin e) (e_origin e) 0 false t input g v 0 0) as [o gb w' iret|child w'|].
     + destruct o; cbn; split; try discriminate; lia.
     + cbn [c_status c_frames frames_gas length]. split; [discriminate|]. destruct Hs as [Hs _]. lia.
     + cbn. split; [discriminate|lia].
@@ -539,14 +556,14 @@ Proof.
   - unfold init_create.
     match goal with |- context [start_create ?d ?ww ?a ?b ?addr ?cc ?gg ?vv] =>
       pose proof (start_create_back d ww a b addr cc gg vv Hg) as Hs;
-      destruct (start_create d ww a b addr cc gg vv) as [o gb w'|child w'|] end.
+      destruct (start_create d ww a b addr cc gg vv) as [o gb w' iret|child w'|] end.
     + constructor.
     + cbn [c_frames]. constructor; [|constructor]. destruct Hs as [_ [H1 H2]]. apply fresh_memok; assumption.
     + constructor.
   - unfold init_create, WF, phi, total_gas.
     match goal with |- context [start_create ?d ?ww ?a ?b ?addr ?cc ?gg ?vv] =>
       pose proof (start_create_back d ww a b addr cc gg vv Hg) as Hs;
-      destruct (start_create d ww a b addr cc gg vv) as [o gb w'|child w'|] end.
+      destruct (start_create d ww a b addr cc gg vv) as [o gb w' iret|child w'|] end.
     + cbn; split; try discriminate; lia.
     + cbn [c_status c_frames frames_gas length]. split; [discriminate|]. destruct Hs as [Hs _]. lia.
     + cbn. split; [discriminate|lia].
